@@ -33,6 +33,10 @@ func init() {
 			"the same neighbour name are resolved first-come in map order (information only).",
 		Run: runC14,
 		Mutants: []Mutant{
+			{Name: "merged-advertisement-without-localpref", File: "internal/bgp/frr/frr.go",
+				Old: "\tres.LocalPref = adv1.LocalPref\n", New: "", Expect: "carries-LocalPref"},
+			{Name: "v6-communities-minus-v4", File: "internal/bgp/frr/frr.go",
+				Old: "n.CommunitiesV6 = sets.List(properties.CommunitiesV6)", New: "n.CommunitiesV6 = sets.List(properties.CommunitiesV6.Difference(properties.CommunitiesV4))", Expect: "whole-set-rendered"},
 			{Name: "ipv6-networks-nested-under-ipv4", File: "internal/bgp/frr/templates/frr.tmpl",
 				Old: "  exit-address-family\n{{end }}\n\n{{- if gt (len .IPV6Prefixes) 0}}", New: "  exit-address-family\n{{ if gt (len .IPV6Prefixes) 0}}", Expect: "TPL"},
 			{Name: "session-key-without-interface", File: "internal/bgp/frr/frr.go",
@@ -780,6 +784,26 @@ func c14Families(p *chk.Prog, r *chk.Report) {
 			}
 		}
 	}
+	// what is rendered for a family is everything that was collected for it: the neighbour's list is the collected set
+	// as a list, with nothing taken out (a community that IPv4 prefixes carry as well still needs its IPv6 entry)
+	for _, set := range allSets {
+		for _, st := range g.Find(f.IsAssignPat("N."+set, "V")) {
+			rhs := st.Node.(*ast.AssignStmt).Rhs[0]
+			narrowed := ""
+			ast.Inspect(rhs, func(n ast.Node) bool {
+				if sel, isSel := n.(*ast.SelectorExpr); isSel {
+					switch sel.Sel.Name {
+					case "Difference", "Intersection", "SymmetricDifference", "Delete", "PopAny":
+						if fo, isF := f.ObjOf(sel.Sel).(*types.Func); isF && fo.Pkg() != nil && strings.HasSuffix(fo.Pkg().Path(), "util/sets") {
+							narrowed = sel.Sel.Name
+						}
+					}
+				}
+				return narrowed == ""
+			})
+			x.Check(set+":whole-set-rendered", st.Pos(), narrowed == "", "", "the neighbour's "+set+" is the collected set with elements taken out ("+narrowed+"): the route-map entry of that family for those values is not generated")
+		}
+	}
 	directSites := map[string][]chk.Site{}
 	aliasSites := map[string][]chk.Site{}
 	for _, s := range g.FindPat("V.Insert(X)") {
@@ -1176,6 +1200,41 @@ func c14Merge(p *chk.Prog, r *chk.Report) {
 					ok = !w.Found || inLit
 				}
 				x.Check("mergeAdvertisements:union-of-"+fld, rt.Pos(), ok, "", "a merged advertisement can lose the "+fld+" of one of the two requests (returned without merging both lists)")
+			}
+			// ... and the scalar fields the two inputs agree on: each is carried over from an input (a field left at its
+			// zero value - a local preference of 0 - renders as "not requested")
+			for _, fld := range []string{"Prefix", "IPFamily", "LocalPref"} {
+				res := rr[0]
+				same := func(e ast.Expr) bool { return f.SameExpr(e, res) }
+				isSet := func(n ast.Node) bool {
+					return f.IsAssignPat("R."+fld, "A."+fld, chk.H("R", same), chk.H("A", func(e ast.Expr) bool { return a(e) || b(e) }))(n)
+				}
+				node := rt.Node
+				w := g.MustPass(chk.Site{}, func(n ast.Node) bool { return n == node }, false, isSet)
+				inLit := f.MatchWith("&advertisementConfig{"+fld+": A."+fld+"}", f.Resolve(res), chk.H("A", func(e ast.Expr) bool { return a(e) || b(e) })) != nil
+				// a copy of one input as the starting point carries every scalar field
+				copied := false
+				if id, isId := ast.Unparen(res).(*ast.Ident); isId {
+					for _, d := range assignsTo(f, f.ObjOf(id)) {
+						if as, isAs := d.(*ast.AssignStmt); isAs && len(as.Rhs) == 1 {
+							if st, isStar := ast.Unparen(as.Rhs[0]).(*ast.StarExpr); isStar && (a(st.X) || b(st.X)) {
+								copied = true
+							}
+							if u, isU := ast.Unparen(as.Rhs[0]).(*ast.UnaryExpr); isU && u.Op == token.AND {
+								if cid, isC := ast.Unparen(u.X).(*ast.Ident); isC {
+									for _, d2 := range assignsTo(f, f.ObjOf(cid)) {
+										if as2, isAs2 := d2.(*ast.AssignStmt); isAs2 && len(as2.Rhs) == 1 {
+											if st2, isStar2 := ast.Unparen(as2.Rhs[0]).(*ast.StarExpr); isStar2 && (a(st2.X) || b(st2.X)) {
+												copied = true
+											}
+										}
+									}
+								}
+							}
+						}
+					}
+				}
+				x.Check("mergeAdvertisements:carries-"+fld, rt.Pos(), !w.Found || inLit || copied, "", "the merged advertisement does not carry the "+fld+" the two requests agree on (it is left at its zero value)")
 			}
 		}
 	}
